@@ -297,6 +297,16 @@ message OptBytes {
   optional bytes pb = 4;
   repeated bytes rb = 5 [(pico.field).always_present = true];
 }
+enum Color { NONE = 0; RED = 1; BLUE = -2; }
+message Unpacked {
+  repeated int32 a = 1 [packed = false];
+  repeated bool b = 2 [packed = false];
+  repeated Color c = 3 [packed = false];
+  repeated sint64 d = 4 [packed = true];
+  repeated double e = 5 [packed = false, (pico.field).always_present = true];
+  repeated fixed32 f = 16 [packed = false];
+  int32 tail = 17;
+}
 """
 
 
